@@ -145,10 +145,16 @@ def check_basis_invariants(inp, which=("perm", "spg", "sum", "ortho", "compact")
     return out
 
 
-def gen_basis_inputs(rng, n, max_N=(8, 6, 4), orders=(2, 3, 4), with_cutoff=True, min_nlp=1):
+def gen_basis_inputs(rng, n, max_N=(8, 6, 4), orders=(2, 3, 4), with_cutoff=True, min_nlp=1, protos=None,
+                     round_decimals=None):
     for k in range(n):
         order = orders[k % len(orders)]
-        cr = crystal(rng, max_N=max_N[order - 2], min_nlp=min_nlp)
+        cr = crystal(rng, max_N=max_N[order - 2], min_nlp=min_nlp, protos=protos, allow_random=protos is None)
+        if round_decimals is not None:
+            # coordinates as they are written in structure files: 1/3 -> 0.3333333 (the operations are then those
+            # spglib finds at its default tolerance, which is what the library documents it uses)
+            cr = Crystal(cr.name, cr.lattice, np.round(cr.positions, round_decimals), cr.numbers, cr.n_lp_expected,
+                         dict(cr.meta, round_decimals=round_decimals))
         cutoff = None
         if with_cutoff and rng.random() < 0.4:
             d = ph.min_image_distances(cr)
@@ -354,9 +360,12 @@ def check_normal_equations(inp) -> list:
     pred = ph.taylor_forces(got, d)
     r = f - pred
     rs = np.random.default_rng(7)
-    for trial in range(3):
+    # admissible directions: all orders mixed, and (for joint fits) each order alone, so that the weak high-order
+    # columns of a small-amplitude dataset are measured on their own scale
+    trials = [tuple(orders)] * 3 + ([(o,) for o in orders] * 2 if len(orders) > 1 else [])
+    for which_orders in trials:
         delta = {}
-        for o in orders:
+        for o in which_orders:
             bs = ph.get_basis(cr, o, cutoff=(cutoff or {}).get(str(o)))
             delta[o] = ph.expand(bs, rs.normal(size=sizes[o]), N, o)
         Fd = ph.taylor_forces(delta, d)
@@ -543,6 +552,19 @@ def check_cutoff(inp) -> list:
     sel = inp.get("cut_indices")
     if sel is not None:
         cuts = [cuts[i] for i in sel if i < len(cuts)]
+    elif len(vals):
+        # radii just above / just below a neighbour shell (0.003 away from it: far above float noise, still strictly
+        # between two consecutive distances) — a radius need not be a midpoint
+        rs_e = np.random.default_rng(inp.get("seed", 0) + 31)
+        extra = []
+        for i in rs_e.permutation(len(vals))[:2]:
+            lo = vals[i - 1] if i > 0 else 0.0
+            hi = vals[i + 1] if i + 1 < len(vals) else vals[i] + 1.0
+            if hi - vals[i] > 0.006:
+                extra.append(float(vals[i] + 0.003))
+            if vals[i] - lo > 0.006 and i > 0:
+                extra.append(float(vals[i] - 0.003))
+        cuts = sorted(set(cuts) | set(extra[:2]))
     dims = []
     nocut = ph.get_basis(cr, order, cutoff=None)
     for cval in cuts:
@@ -868,6 +890,18 @@ def check_sg_perms(inp) -> list:
         keep = [i for i in range(len(rots)) if np.array_equal(rots[i], np.eye(3, dtype=int))
                 or np.array_equal(rots[i], -np.eye(3, dtype=int))]
         rots, trans = rots[keep], trans[keep]
+    # the ORDER in which the caller lists the operations is free (spglib lists translation-major)
+    mode = inp.get("op_order", "spglib")
+    rs_o = np.random.default_rng(inp.get("seed", 0))
+    if mode == "shuffled":
+        idx = rs_o.permutation(len(rots))
+    elif mode == "identity_first_shuffled":
+        idx = np.concatenate([[0], 1 + rs_o.permutation(len(rots) - 1)])
+    elif mode == "by_rotation":
+        idx = np.array(sorted(range(len(rots)), key=lambda i: (tuple(np.asarray(rots[i]).reshape(-1).tolist()), i)))
+    else:
+        idx = np.arange(len(rots))
+    rots, trans = rots[idx], trans[idx]
     perms = compute_sg_permutations(cr.positions, rots, trans, cr.lattice.T, 1e-5)
     for k, (r, t) in enumerate(zip(rots, trans)):
         ref = ph.atom_perm_of_op(cr, r, t)
